@@ -138,7 +138,7 @@ theorem kernel_transparent_partial (k : Kernel) (z : ATree) (ops : List Operand)
   obtain ⟨rs, s', h⟩ := kernel_calls_safe k z ops p keys s₀
   refine ⟨s', ?_⟩
   simp only [kernelEvents] at hok h
-  show (if assertsOk (wtrOf keys) (runK k.declared k.loops k.out z ops).2 = true then _ else none) = _
+  show (if assertsOk (wtrOf keys) (runK k.cfg k.loops k.out z ops).2 = true then _ else none) = _
   rw [if_pos hok, h]; rfl
 
 /-- … which is guaranteed when the output tensor was created with a shape -/
@@ -146,9 +146,9 @@ theorem kernel_transparent_declared (k : Kernel) (z : ATree) (ops : List Operand
     (s₀ : MState) (hd : k.declared = true) :
     ∃ s', kernelSession k z ops p keys s₀ = some (runPlain k z ops, s') := by
   apply kernel_transparent_partial
-  unfold kernelEvents
+  unfold kernelEvents Kernel.cfg
   rw [hd]
-  exact assertsOk_of_declared _ _ _ _ _
+  exact assertsOk_of_declared _ _ _ _ _ _
 
 /-- … and also when the write trace of no populate destination is collected: then every kernel,
     whatever the shape declarations, is transparent -/
@@ -180,8 +180,10 @@ theorem sumInc_traces (line metric : String) (keys : List TKey) :
   | cons k ks ih => simp [sumInc, ih]
 
 /-- **exact counts**: after the collecting session `dump()["Compute"]` shows exactly the payload
-    operators the kernel executed — `payload_mul` the `*`, `payload_update` the `+=`, `payload_add`
-    the `+=` on an accumulator that already held a non-zero value — and no other line or metric. -/
+    operators the kernel executed, however its innermost statement is spelled (`z += a*b`,
+    `z <<= z + a*b`, `t *= b; z += t`): `payload_mul` the `*` and `*=`, `payload_update` the `+=`,
+    `<<=` and `*=`, `payload_add` the `+` and the `+=` on an accumulator that already held a non-zero
+    value. -/
 theorem kernel_counts_exact (k : Kernel) (z : ATree) (ops : List Operand) (p : String) (keys : List TKey)
     (s₀ s' : MState) (out : ATree) (h : kernelSession k z ops p keys s₀ = some (out, s')) :
     count s' "Compute" "payload_mul" = nMul (kernelEvents k z ops) ∧
@@ -205,7 +207,7 @@ theorem kernel_counts_exact (k : Kernel) (z : ATree) (ops : List Operand) (p : S
         (keys.map (fun k => MOp.trace k.1 k.2 false) ++ callsOf (kernelEvents k z ops) ++ [MOp.endCollect])) s₀ = some (rs, s1) := by
       simpa [openOps, kernelEvents] using hrun
     have key := fun m => dump_counts_exact (some p) _ s₀ s1 rs hb hrun' "Compute" m
-    obtain ⟨b1, b2, b3⟩ := runK_bal k.declared k.loops k.out z ops
+    obtain ⟨b1, b2, b3⟩ := runK_bal k.cfg k.loops k.out z ops
     simp only [cnt] at b1 b2 b3
     refine ⟨?_, ?_, ?_⟩
     · rw [key, sumInc_append, sumInc_append, sumInc_traces]; simp [sumInc, kernelEvents, b1]
@@ -227,9 +229,9 @@ theorem kernel_numIters_eq_bodies_partial (k : Kernel) (z : ATree) (ops : List O
   split at h
   · simp only [Option.map_eq_some_iff, Prod.mk.injEq] at h
     obtain ⟨⟨rs, s1⟩, hrun, _, rfl⟩ := h
-    have hsafe := runK_safe k.declared k.loops k.out z ops []
-    have hub := runK_ub k.declared k.loops k.out z ops hU r
-    show _ = nBody r (runK k.declared k.loops k.out z ops).2
+    have hsafe := runK_safe k.cfg k.loops k.out z ops []
+    have hub := runK_ub k.cfg k.loops k.out z ops hU r
+    show _ = nBody r (runK k.cfg k.loops k.out z ops).2
     rw [← hub]
     exact numIters_eq_uses p keys _ s₀ s1 rs (inBody_of_safe _ [] hsafe) hrun r "iter" hk
   · cases h
@@ -257,7 +259,7 @@ theorem kernel_session_isolated_partial (k : Kernel) (z : ATree) (ops : List Ope
       (∀ r ty, (r, ty) ∈ keys → numIters (fileOf s₁' p r ty) = numIters (fileOf s₂' p r ty)) := by
   obtain ⟨rs1, t1, h1⟩ := kernel_calls_safe k z ops p keys s₁
   obtain ⟨rs2, t2, h2⟩ := kernel_calls_safe k z ops p keys s₂
-  have hsafe := runK_safe k.declared k.loops k.out z ops []
+  have hsafe := runK_safe k.cfg k.loops k.out z ops []
   have hin := inBody_of_safe _ [] hsafe
   have hb : ∀ op ∈ keys.map (fun k => MOp.trace k.1 k.2 false) ++ callsOf (kernelEvents k z ops) ++ [MOp.endCollect],
       op.isBegin = false := by
@@ -270,10 +272,10 @@ theorem kernel_session_isolated_partial (k : Kernel) (z : ATree) (ops : List Ope
     · rfl
   refine ⟨t1, t2, ?_, ?_, ?_, ?_⟩
   · simp only [kernelEvents] at hok h1
-    show (if assertsOk (wtrOf keys) (runK k.declared k.loops k.out z ops).2 = true then _ else none) = _
+    show (if assertsOk (wtrOf keys) (runK k.cfg k.loops k.out z ops).2 = true then _ else none) = _
     rw [if_pos hok, h1]; rfl
   · simp only [kernelEvents] at hok h2
-    show (if assertsOk (wtrOf keys) (runK k.declared k.loops k.out z ops).2 = true then _ else none) = _
+    show (if assertsOk (wtrOf keys) (runK k.cfg k.loops k.out z ops).2 = true then _ else none) = _
     rw [if_pos hok, h2]; rfl
   · intro line metric
     rw [dump_counts_exact (some p) _ s₁ t1 rs1 hb (by simpa [openOps] using h1),
@@ -336,6 +338,10 @@ example : (show List (Int × Int) from castT 1 (runPlain kCol ⟨1, []⟩ [aCol]
 example : (kernelSession kCol ⟨1, []⟩ [aCol] "p" [("K", "iter"), ("M", "iter")] dirty).map
     (fun x => (count x.2 "Compute" "payload_update", count x.2 "Compute" "payload_add",
       numIters (fileOf x.2 "p" "K" "iter"), numIters (fileOf x.2 "p" "M" "iter"))) = some (4, 1, 4, 2) := by decide
+-- the same kernel spelled `z <<= z + a` / `t = a; z += t`: other operators, other counts, same theorem
+example : (kernelSession { kCol with body := .addAssign } ⟨1, []⟩ [aCol] "p" [] dirty).map
+    (fun x => (count x.2 "Compute" "payload_update", count x.2 "Compute" "payload_add", count x.2 "Compute" "payload_mul")) = some (4, 4, 0) ∧
+    nAdd (kernelEvents { kCol with body := .addAssign } ⟨1, []⟩ [aCol]) = 4 := by decide
 example : (∀ o ∈ [aCol], o.uShape = none) ∧ registers "K" (callsOf (kernelEvents kCol ⟨1, []⟩ [aCol])) = true := by decide
 
 /-- matrix multiply `Z_mn = Σ_k A_mk B_kn` in the order M, K, N (intersections are well-founded
